@@ -54,23 +54,33 @@ def rdFrameObs : Rd FrameObs := do
 def coarse (o : FrameObs) : FrameObs :=
   { dgs := o.dgs.map Res.coarse, hdrs := o.hdrs.map Res.coarse, outs := o.outs.map Res.coarse }
 
+/-- What C06 itself states about the train (datagrams ≤ MTU that parse back, consecutive sequence
+    numbers continuing across calls, one timestamp per call, configured SSRC / payload type, marker
+    on the last packet only), evaluated along the history with the depacketizer's answers IGNORED:
+    whether the codec's depacketizer reassembles the frame is the codec's property (C10 … C16), not
+    C06's, so under C06 the reassembly clauses of `histOk…` — which the pipeline theorems prove of
+    the model — are compared through the correspondence only. -/
+def c06Train (pk : Packetizer) (fs : List FrameIn) (obs : List FrameObs) : Bool :=
+  histTrain pk (pk.seq.seq + 1) pk.ts fs
+    (obs.map fun o => { o with outs := o.hdrs.map fun _ => (.ok [] : Res Bytes) })
+
 def g711 : Handler :=
   mkHandler (do let pk ← rdCfg; let _ ← Rd.tok; let fs ← Rd.list rdFrame; pure (pk, fs)) (Rd.list rdFrameObs)
     (fun (pk, fs) => (runG711 pk fs).map coarse)
-    (fun (pk, fs) o => histOk pk fs o)
+    (fun (pk, fs) o => c06Train pk fs o)
     (fun (pk, fs) => wfG711 pk fs)
 
 def opus : Handler :=
   mkHandler (do let pk ← rdCfg; let fs ← Rd.list rdFrame; pure (pk, fs)) (Rd.list rdFrameObs)
     (fun (pk, fs) => (runOpus pk fs).map coarse)
-    (fun (pk, fs) o => histOk pk fs o)
+    (fun (pk, fs) o => c06Train pk fs o)
     (fun (pk, fs) => wfOpus pk fs)
 
 def vp8 : Handler :=
   mkHandler (do let pk ← rdCfg; let e ← Rd.bool; let k ← Rd.nat; let fs ← Rd.list rdFrame; pure (pk, e, k, fs))
     (Rd.list rdFrameObs)
     (fun (pk, e, k, fs) => (runVP8 e k pk {} fs).map coarse)
-    (fun (pk, _, _, fs) o => histOk pk fs o)
+    (fun (pk, _, _, fs) o => c06Train pk fs o)
     (fun (pk, e, _, fs) => wfVP8 e pk fs)
 
 def rdVP9Frame : Rd VP9Frame := do
@@ -82,7 +92,7 @@ def vp9 : Handler :=
   mkHandler (do let pk ← rdCfg; let f ← Rd.bool; let i ← Rd.u16; let fs ← Rd.list rdVP9Frame; pure (pk, f, i, fs))
     (Rd.list rdFrameObs)
     (fun (pk, f, i, fs) => (runVP9 { flexible := f, init := i } pk {} (fs.map VP9Frame.frameIn)).map coarse)
-    (fun (pk, _, _, fs) o => histOk pk (fs.map VP9Frame.frameIn) o)
+    (fun (pk, _, _, fs) o => c06Train pk (fs.map VP9Frame.frameIn) o)
     (fun (pk, f, i, fs) => wfVP9 { flexible := f, init := i } pk fs)
 
 structure H264In where
@@ -114,7 +124,7 @@ def H264In.buf (i : H264In) : Bytes := (H264.run i.avc [] i.pre).2
 def h264 : Handler :=
   mkHandler rdH264In (Rd.list rdFrameObs)
     (fun i => (runH264 i.disable i.avc i.pk i.buf i.frameIns).map coarse)
-    (fun i o => histOkWhole i.pk i.frameIns (h264Expected i.disable i.avc (i.frames.map (·.1))) o)
+    (fun i o => c06Train i.pk i.frameIns o)
     (fun i => wfH264 i.pk (i.frames.map (·.1)) && i.frames.all (fun (fr, b) => b == fr.buffer))
 
 /-- on the driver's `wf` the frames the model runs on are the frames of the theorem -/
@@ -149,7 +159,7 @@ def av1 : Handler :=
                 pure ({ pk := pk, pre := pre, frames := fs } : AV1In))
     (Rd.list rdFrameObs)
     (fun i => (runAV1 i.pk i.dst i.frameIns).map coarse)
-    (fun i o => histOkE i.pk i.frameIns (i.frames.map (·.1.expected)) o)
+    (fun i o => c06Train i.pk i.frameIns o)
     (fun i => wfAV1 i.pk (i.frames.map (·.1)) && i.frames.all (fun (fr, b) => b == Spec.Av1Rtp.serialise fr.obus))
 
 structure H265In where
@@ -170,7 +180,7 @@ def h265 : Handler :=
                 pure ({ pk := pk, cfg := { addDONL := a, skipAgg := sk }, frames := fs } : H265In))
     (Rd.list rdFrameObs)
     (fun i => (runH265 i.cfg 0 i.pk i.frameIns).map coarse)
-    (fun i o => histOkH265 i.pk (i.frames.map (·.1)) o)
+    (fun i o => c06Train i.pk i.frameIns o)
     (fun i => wfH265 i.cfg i.pk (i.frames.map (·.1)) &&
               i.frames.all (fun (fr, b) => b == Rtp.Pred.C14.frameBytes fr.units))
 
